@@ -47,7 +47,7 @@ void abort(void) {
  * contracts/allocator.h and contracts/common.h (acquire: size > 0, never fails, fresh block with arbitrary contents;
  * release: a block that is still allocated, or NULL).  The units of mode "proof" replace the calls
  * by those contracts instead. */
-#define PQ_ALLOC_BYTES (PQ_CAPMAX * ISZ) /* largest request a queue within the bound can make (length == capacity < N doubles to < 2N) */
+#define PQ_ALLOC_BYTES (2 * PQN * ISZ) /* largest request a queue within the bound can make (length == capacity < N doubles to < 2N elements) */
 void *aws_mem_acquire(struct aws_allocator *allocator, size_t size) {
     __CPROVER_assert(allocator != NULL && size > 0, "aws_mem_acquire: precondition of the allocator contract");
     __CPROVER_assert(size <= PQ_ALLOC_BYTES, "aws_mem_acquire: request within what a queue of this bound can need");
